@@ -180,7 +180,7 @@ def posOfKey {α : Type} (a : DimArray α) (k : DimKey) : Except Err Int :=
     | .name s =>
       let p := a.dims.idxOf s
       if p < a.dims.length then .ok (p : Int) else .error .value
-    | .pos i => .ok i
+    | .pos i => if i < -(a.ndim : Int) || i ≥ (a.ndim : Int) then .error .index else .ok i
 
 theorem axesPositions_names_ok {α : Type} (a : DimArray α) : ∀ (names : List String), (∀ s ∈ names, s ∈ a.dims) →
     axesPositions a (names.map DimKey.name) = .ok (names.map (fun s => ((a.dims.idxOf s : Nat) : Int))) := by
